@@ -10,6 +10,7 @@ from ..core import (AnalysisError, call_name, dotted, is_const, kwarg, local_def
 from ..facts import guards_of, returns_of, enclosing_loops
 from ..rules import matcher as M
 from ..rules.nonmut import mutations
+from ..pattern import pmatch, pfind
 
 SM = "synkit/Graph/Matcher/subgraph_matcher.py"
 ENG = "SubgraphSearchEngine."
@@ -120,107 +121,108 @@ def component_aware(rep):
     fi = rep.f(SM, ENG + STRATS[1])
     defs = local_defs(fi.node)
     pm = parent_map(fi.node)
-    # hcc / pcc are the component counts of host / pattern
-    srcs = {}
-    for nm in ("hcc", "pcc"):
-        u = defs.get(nm, [])
-        srcs[nm] = norm(u[0].value.elts[u[0].index[0]]) if u and u[0].index and isinstance(u[0].value, ast.Tuple) else None
-    roles = {}
-    for nm, want in (("hcc", "HOST"), ("pcc", "PATTERN")):
-        e = defs[nm][0].value.elts[defs[nm][0].index[0]] if srcs[nm] else None
-        roles[nm] = M.role(fi, e, local_defs(fi.node, into_nested=True)) if e is not None else "UNKNOWN"
-        comp_src = origin(defs, e.args[0]) if isinstance(e, ast.Call) and call_name(e) == "len" and e.args else None
-        okc = comp_src is not None and "connected_components" in norm(comp_src)
-        rep.ob("O6.4", "SHAPE", fi, (roles[nm] == want and okc) if e is not None else None, defs[nm][0].stmt if srcs[nm] else nm,
-               f"{nm} counts the connected components of the {'host' if nm == 'hcc' else 'pattern'}", {"role": roles[nm]})
-    # fallback to the exhaustive strategy exactly when hcc < pcc
+    # fallback to the exhaustive strategy exactly when #components(host) < #components(pattern)
     fb = None
     for st in fi.node.body:
         if isinstance(st, ast.If) and len(st.body) == 1 and isinstance(st.body[0], ast.Return) \
                 and isinstance(st.body[0].value, ast.Call) and call_name(st.body[0].value) == STRATS[0]:
             fb = st
+    pcc = None
     if fb is None:
-        rep.ob("O6.4", "SHAPE", fi, False, "if hcc < pcc: return _find_all_subgraph_mappings(...)",
+        rep.ob("O6.4", "SHAPE", fi, False, "if <host components> < <pattern components>: return _find_all_subgraph_mappings(...)",
                "with fewer host components than pattern components the exhaustive set is returned")
     else:
         verdict, facts = fallback_condition(fi, fb.test)
         rep.ob("O6.4", "SHAPE", fi, verdict, fb.test, "exhaustive fallback is taken exactly when the host has fewer connected components than the pattern", facts, node=fb)
+        if facts.get("left_counts") == "PATTERN":
+            pcc = facts.get("left")
+        elif facts.get("right_counts") == "PATTERN":
+            pcc = facts.get("right")
         c = fb.body[0].value
         callee = rep.f(SM, ENG + STRATS[0])
         names = [norm(a) for a in c.args]
         rep.ob("O6.4", "SHAPE", fi, names == callee.params[: len(names)] and len(names) == len(callee.params), c,
                "the fallback searches the same host/pattern with the same attribute selections and limits",
                {"args": names, "params": callee.params}, node=c)
-        # nothing mutating between entry and the fallback
     # back-tracking bookkeeping
     bt = rep.f(SM, ENG + STRATS[1] + ".<locals>.backtrack")
+    bpm = parent_map(bt.node)
     cfg = CFG(bt.node)
-    adds = [c for c in walk_local(bt.node) if isinstance(c, ast.Call) and norm(c.func) == "used.add"]
-    rems = [c for c in walk_local(bt.node) if isinstance(c, ast.Call) and norm(c.func) in ("used.remove", "used.discard")]
-    rep.need("R6d", len(adds), 1, "used.add in backtrack")
-    for a in adds:
-        key = norm(a.args[0])
+    level, acc = bt.params[0], bt.params[1]
+    branch = [l for l in walk_local(bt.node) if isinstance(l, ast.For) and isinstance(l.target, ast.Tuple) and len(l.target.elts) == 2
+              and pmatch("$o[$lv]", l.iter, {"lv": level}) is not None]
+    rep.need("R6d", len(branch), 1, "branching loop `for hi, m in <ordered>[level]` in backtrack")
+    lp = branch[0]
+    hi, m = [norm(e) for e in lp.target.elts]
+    # the in-use marker: a set that receives .add(hi) in the loop
+    adds = [(n, b) for n, b in pfind("$u.add($h)", lp, {"h": hi})]
+    rep.need("R6d", len(adds), 1, "<used>.add(hi) in backtrack")
+    used = adds[0][1]["u"]
+    rems = [n for n, b in pfind("$u.remove($h)", lp, {"u": used, "h": hi})] + [n for n, b in pfind("$u.discard($h)", lp, {"u": used, "h": hi})]
+    for a, _b in adds:
         a_st = cfg.stmt_of(a)
-        rel = [cfg.stmt_of(r) for r in rems if norm(r.args[0]) == key]
-        loops = enclosing_loops(parent_map(bt.node), a, bt.node)
+        rel = [cfg.stmt_of(r) for r in rems]
         ok = bool(rel)
         if ok:
-            for target in [EXIT, RAISE] + loops[:1]:
-                # every path from the add to an exit of the iteration passes a release
+            for target in [EXIT, RAISE, lp]:
                 if not _all_paths_release(cfg, a_st, target, rel):
                     ok = False
-        rep.ob("O6.4", "R6d", bt, ok, a, f"`used.add({key})` is released on every path out of the iteration "
+        rep.ob("O6.4", "R6d", bt, ok, a, f"`{used}.add({hi})` is released on every path out of the iteration "
                "(otherwise later branches lose valid host components)", {"releases": len(rel)}, node=a)
-        # the skip test consults the same marker
-        lp = loops[0] if loops else None
-        conts = [n for n in walk_local(lp) if isinstance(n, ast.Continue)] if lp else []
-        gtxt = [norm(t) for cn in conts for t, s in guards_of(parent_map(bt.node), cn, lp)]
-        rep.ob("O6.4", "R6d", bt, any(f"{key} in used" in g for g in gtxt), f"continue under {gtxt}",
-               "a host component already in use is skipped (different pattern components go to different host components)",
-               node=conts[0] if conts else a)
-    # no other way to skip a candidate placement: every skip must be (host component in use) or (pattern node already placed)
-    for lp_ in [l for l in walk_local(bt.node) if isinstance(l, ast.For) and "ordered[level]" in norm(l.iter)]:
-        hi_, m_ = [norm(e) for e in lp_.target.elts] if isinstance(lp_.target, ast.Tuple) else ("hi", "m")
-        allowed = {f"{hi_}inused", f"any(({norm(ast.parse('p').body[0].value)}inaccforpin{m_}))", f"any(pinaccforpin{m_})"}
-        for ex in [n for n in walk_local(lp_) if isinstance(n, (ast.Continue, ast.Break))]:
-            gs = guards_of(parent_map(bt.node), ex, lp_)
-            parts = []
-            for t, s_ in gs:
-                vals = t.values if isinstance(t, ast.BoolOp) and isinstance(t.op, ast.Or) else [t]
-                parts += [norm(v).replace(" ", "").replace("((", "(").replace("))", ")") for v in vals]
-            ok_skip = isinstance(ex, ast.Continue) and bool(parts) and all(
-                p_ in (f"{hi_}inused", f"any(pinaccforpin{m_})") for p_ in parts)
-            rep.ob("O6.4", "R6d", bt, ok_skip, f"{type(ex).__name__.lower()} under {parts}",
-                   "a candidate placement is skipped only because its host component is in use or one of its pattern nodes is already placed "
-                   "(any further 'symmetry breaking' drops assignments that send different pattern components to different host components)", node=ex)
-        for ex in [n for n in walk_local(lp_) if isinstance(n, ast.Return)]:
-            gtxt = " ".join(norm(t) for t, s_ in guards_of(parent_map(bt.node), ex, lp_))
-            rep.ob("O6.4", "R6d", bt, "max_results" in gtxt or "threshold" in gtxt, f"return under `{gtxt}`", "the back-tracking stops early only on the result limits", node=ex)
+    # skips: only (host component in use) or (pattern node already placed)
+    consulted = False
+    for ex in [n for n in walk_local(lp) if isinstance(n, (ast.Continue, ast.Break))]:
+        gs = guards_of(bpm, ex, lp)
+        parts = []
+        for t, s_ in gs:
+            parts += (t.values if isinstance(t, ast.BoolOp) and isinstance(t.op, ast.Or) else [t])
+        kinds = []
+        for v in parts:
+            if pmatch("$h in $u", v, {"h": hi, "u": used}) is not None:
+                kinds.append("in-use")
+                consulted = True
+            elif pmatch("any(($p in $a for $p in $m))", v, {"a": acc, "m": m}) is not None:
+                kinds.append("already-placed")
+            else:
+                kinds.append("OTHER:" + norm(v)[:50])
+        ok_skip = isinstance(ex, ast.Continue) and bool(kinds) and all(k in ("in-use", "already-placed") for k in kinds)
+        rep.ob("O6.4", "R6d", bt, ok_skip, f"{type(ex).__name__.lower()} under {kinds}",
+               "a candidate placement is skipped only because its host component is in use or one of its pattern nodes is already placed "
+               "(any further 'symmetry breaking' drops assignments that send different pattern components to different host components)", node=ex)
+    rep.ob("O6.4", "R6d", bt, consulted, f"skip test consults `{used}`", "a host component already in use is skipped (different pattern components go to different host components)", node=lp)
+    for ex in [n for n in walk_local(lp) if isinstance(n, ast.Return)]:
+        gtxt = " ".join(norm(t) for t, s_ in guards_of(bpm, ex, lp))
+        rep.ob("O6.4", "R6d", bt, "max_results" in gtxt or "threshold" in gtxt, f"return under `{gtxt}`", "the back-tracking stops early only on the result limits", node=ex)
     # acc.update(m) undone
-    upd = [c for c in walk_local(bt.node) if isinstance(c, ast.Call) and norm(c.func) == "acc.update"]
-    pops = [c for c in walk_local(bt.node) if isinstance(c, ast.Call) and norm(c.func) in ("acc.pop", "acc.__delitem__")]
-    dels = [d for d in walk_local(bt.node) if isinstance(d, ast.Delete)]
+    upd = [n for n, b in pfind("$a.update($m)", lp, {"a": acc, "m": m})]
+    pops = [n for n, b in pfind("$a.pop($$k)", lp, {"a": acc})]
+    dels = [d for d in walk_local(lp) if isinstance(d, ast.Delete)]
+    rep.ob("O6.4", "R6d", bt, len(upd) == 1, upd[0] if upd else f"{acc}.update({m})", "the candidate's pattern nodes are added to the partial mapping", node=lp)
     for u in upd:
         u_st = cfg.stmt_of(u)
-        rel = [cfg.stmt_of(p) for p in pops] + dels
-        # `for p in m: acc.pop(p)` releases exactly what `acc.update(m)` acquired
-        for p in pops:
-            for l in enclosing_loops(parent_map(bt.node), p, bt.node)[:1]:
-                if u.args and norm(l.iter) == norm(u.args[0]):
+        rel = [cfg.stmt_of(p_) for p_ in pops] + dels
+        for p_ in pops:
+            for l in enclosing_loops(bpm, p_, lp)[:1]:
+                if norm(l.iter) == m:
                     rel.append(l)
-        ok = bool(rel) and all(_all_paths_release(cfg, u_st, t, rel) for t in [EXIT, RAISE])
+        ok = bool(rel) and all(_all_paths_release(cfg, u_st, t, rel) for t in [EXIT, RAISE, lp])
         rep.ob("O6.4", "R6d", bt, ok, u, "the partial mapping is restored after each branch", node=u)
     # stored as a copy at full depth
-    apps = [c for c in walk_local(bt.node) if isinstance(c, ast.Call) and norm(c.func) == "results.append"]
-    rep.need("R7", len(apps), 1, "results.append in backtrack")
-    for c in apps:
+    apps = [(n, b) for n, b in pfind("$r.append($$x)", bt.node) if not any(x is n for x in ast.walk(lp))]
+    rep.need("R7", len(apps), 1, "<results>.append(...) in backtrack")
+    res_name = apps[0][1]["r"]
+    for c, b in apps:
         a0 = c.args[0]
-        is_copy = isinstance(a0, ast.Call) and ((isinstance(a0.func, ast.Attribute) and a0.func.attr == "copy")
-                                                or (isinstance(a0.func, ast.Name) and a0.func.id == "dict"))
+        is_copy = pmatch("$a.copy()", a0, {"a": acc}) is not None or pmatch("dict($a)", a0, {"a": acc}) is not None
         rep.ob("O6.4", "R7", bt, is_copy, c, "the accumulator is stored as a copy (it is mutated afterwards)", node=c)
-        gs = [(norm(t).replace(" ", ""), s) for t, s in guards_of(parent_map(bt.node), c, bt.node)]
-        rep.ob("O6.4", "SHAPE", bt, ("level==pcc", True) in gs, f"append under {gs}",
+        gs = guards_of(bpm, c, bt.node)
+        full = any(s_ and isinstance(t, ast.Compare) and isinstance(t.ops[0], ast.Eq) and {norm(t.left), norm(t.comparators[0])} == {level, pcc or "pcc"} for t, s_ in gs)
+        rep.ob("O6.4", "SHAPE", bt, full, f"append under {[norm(t) for t, _ in gs]}",
                "a combined mapping is emitted only when every pattern component is placed", node=c)
+    rets = returns_of(fi.node)
+    rep.ob("O6.4", "SHAPE", fi, bool(rets) and norm(rets[-1].value) == res_name, rets[-1] if rets else "return", "the strategy returns the list the back-tracking fills")
+    start = [n for n, b in pfind("backtrack(0, {})", fi.node, into_nested=False)]
+    rep.ob("O6.4", "SHAPE", fi, len(start) == 1, start[0] if start else "backtrack(0, {})", "the search starts at the first pattern component with an empty mapping")
 
 
 def _count_of(fi, defs, expr):
@@ -337,15 +339,20 @@ def fallback_and_dispatch(rep):
     for q in STRATS:
         if q not in calls:
             rep.ob("O6.5", "SHAPE", fi, False, f"no call to {q}", "every strategy of the enum is dispatched to its own search", node=fi.node)
-    want = {STRATS[0]: [("strat is Strategy.ALL", True)],
-            STRATS[1]: [("strat is Strategy.COMPONENT", True), ("strat is Strategy.ALL", False)],
-            STRATS[2]: [("strat is Strategy.COMPONENT", False), ("strat is Strategy.ALL", False)]}
+    # the dispatch variable: `<strat> = Strategy.from_string(strategy)`; the effective threshold: `<thresh> = threshold if ... else DEFAULT`
+    sv = pfind("$s = Strategy.from_string(strategy)", fi.node, into_nested=False)
+    strat = sv[0][1]["s"] if sv else "strat"
+    tv = [(n, b) for n, b in pfind("$t = $$e", fi.node, into_nested=False) if isinstance(n, ast.Assign) and isinstance(n.value, ast.IfExp) and "threshold" in norm(n.value)]
+    thresh = tv[0][1]["t"] if tv else "thresh"
+    want = {STRATS[0]: [(f"{strat} is Strategy.ALL", True)],
+            STRATS[1]: [(f"{strat} is Strategy.COMPONENT", True), (f"{strat} is Strategy.ALL", False)],
+            STRATS[2]: [(f"{strat} is Strategy.COMPONENT", False), (f"{strat} is Strategy.ALL", False)]}
     for q, c in calls.items():
         gs = [(norm(t), s) for t, s in guards_of(pm, c, fi.node)]
         rep.ob("O6.5", "SHAPE", fi, gs == want[q], f"{q} under {gs}", "the strategy enum selects the like-named search", node=c)
         cal = rep.f(SM, ENG + q)
         names = [norm(a) for a in c.args]
-        renamed = [{"thresh": "threshold"}.get(n, n) for n in names]
+        renamed = [{thresh: "threshold"}.get(n, n) for n in names]
         rep.ob("O6.5", "SHAPE", fi, renamed == cal.params[: len(names)] and len(names) == len(cal.params), c,
                "arguments are bound to the like-named parameters", {"args": names, "params": cal.params}, node=c)
     # final guard
@@ -353,17 +360,19 @@ def fallback_and_dispatch(rep):
     ok = None
     if rets:
         v = rets[-1].value
+        res_names = {norm(n.targets[0]) for c in calls.values() for n in [pm.get(c)] if isinstance(n, ast.Assign)}
+        res = list(res_names)[0] if len(res_names) == 1 else "results"
         try:
             table = []
             for n_, t in ((0, 5), (5, 5), (6, 5)):
-                empt = bool(eval_expr(v.test, {"len(results)": n_, "thresh": t}))
+                empt = bool(eval_expr(v.test, {f"len({res})": n_, thresh: t}))
                 table.append((n_, t, empt))
             ok = [e for _, _, e in table] == [False, False, True] and isinstance(v.body, ast.List) and not v.body.elts \
-                and norm(v.orelse) == "results"
+                and norm(v.orelse) == res and len(res_names) == 1
         except Undecided:
             ok = None
-    rep.ob("O6.5", "SHAPE", fi, ok, rets[-1] if rets else "return", "past the threshold the result is emptied, otherwise returned unchanged")
-    th = defs_thresh = local_defs(fi.node).get("thresh", [])
+    rep.ob("O6.5", "SHAPE", fi, ok, rets[-1] if rets else "return", "past the threshold the result of the selected strategy is emptied, otherwise returned unchanged")
+    th = defs_thresh = local_defs(fi.node).get(thresh, [])
     ok = bool(th) and isinstance(th[0].value, ast.IfExp) and norm(th[0].value.test) == "threshold is not None" \
         and norm(th[0].value.body) == "threshold" and norm(th[0].value.orelse).endswith("DEFAULT_THRESHOLD")
     rep.ob("O6.5", "SHAPE", fi, ok if th else None, th[0].stmt if th else "thresh", "the effective threshold is the caller's, else the default")
@@ -395,7 +404,8 @@ def limits(rep):
                     what = "enumeration is cut short only by max_results (truncation)"
                 elif isinstance(ex, ast.Return):
                     empty = isinstance(ex.value, ast.List) and not ex.value.elts
-                    ok = bool(gs) and empty and ("threshold" in txt or "not maps" in txt or "not cand" in txt)
+                    nocand = any(isinstance(t_, ast.UnaryOp) and isinstance(t_.op, ast.Not) and isinstance(t_.operand, ast.Name) and s_ for t_, s_ in gs)
+                    ok = bool(gs) and empty and ("threshold" in txt or nocand)
                     what = "an early return inside the enumeration empties the result and is guarded by the threshold (or no candidates)"
                 else:
                     ok = False
